@@ -185,6 +185,7 @@ func cmdRun(args []string) int {
 	queryMs := fs.Int("query-ms", 0, "solver timeout per query")
 	noMerge := fs.Bool("no-merge", false, "disable state merging (debug)")
 	dump := fs.String("dump", "", "write solver transcript of the (single) selected harness to file")
+	harnessS := fs.Int("harness-timeout", 0, "per-harness deadline in seconds (default 600 quick, 7200 thorough)")
 	fs.Parse(args[1:])
 	seed, _ := strconv.ParseInt(envOr("VERIF_SEED", "0"), 10, 64)
 	t0 := time.Now()
@@ -273,6 +274,13 @@ func cmdRun(args []string) int {
 			sem <- struct{}{}
 			defer func() { <-sem }()
 			opt := gosym.Options{Seed: seed, Trace: *trace, QueryMs: *queryMs, NoMerge: *noMerge, MergeDebug: os.Getenv("VERIF_MERGEDBG") != ""}
+			opt.DeadlineS = *harnessS
+			if opt.DeadlineS == 0 {
+				opt.DeadlineS = 600
+				if *tier == "thorough" {
+					opt.DeadlineS = 7200
+				}
+			}
 			if opt.QueryMs == 0 {
 				if *tier == "thorough" {
 					opt.QueryMs = 600000
@@ -699,6 +707,15 @@ func conclude(prop, tier string, seed int64, t0 time.Time, loadS float64, result
 					}
 					if nr.Status == "panic" && findingLabels[p.harness]["<panic>"] {
 						continue
+					}
+					if nr.Status == "assume" && len(p.model.Reached) == 1 {
+						// the model was taken at a reach label; nondets drawn after it are unconstrained in the
+						// model, so a later assumption may fail natively: fine as long as the label was reached
+						for _, x := range nr.Reached {
+							if x == p.model.Reached[0] {
+								nr.Status = "ok"
+							}
+						}
 					}
 					if nr.Status != "ok" {
 						inconcl = append(inconcl, fmt.Sprintf("%s: translator validation: native run status %s (%v %s) on a model of a passing path", p.harness, nr.Status, nr.Failures, nr.Panic))
